@@ -33,10 +33,11 @@ const (
 	effRemove
 	effReplace
 	effSliceClear
+	effInsertSorted
 )
 
 func (k effKind) String() string {
-	return [...]string{"M[k]=v", "delete(M,k)", "M=new", "S=append(S,x)", "sort(S)", "remove(S,x)", "S[search(x)]=y", "S=empty"}[k]
+	return [...]string{"M[k]=v", "delete(M,k)", "M=new", "S=append(S,x)", "sort(S)", "remove(S,x)", "S[search(x)]=y", "S=empty", "insert x at search(x)"}[k]
 }
 
 type effect struct {
@@ -239,6 +240,10 @@ func (tc *tcase) effectAt(in ssa.Instruction) (effect, bool, string) {
 					}
 				}
 				if xk, ok := tc.searchOf(ia.Index); ok {
+					// binary insertion: S = append(S, zero); copy(S[pos+1:], S[pos:]); S[pos] = x with pos = search(S, x)
+					if strip(xk) == strip(x.Val) && tc.upShiftBefore(in, ia.Index) {
+						return effect{kind: effInsertSorted, v: x.Val, in: in}, true, ""
+					}
 					return effect{kind: effReplace, v: xk, k: x.Val, in: in}, true, ""
 				}
 				return effect{}, false, "element store into " + S.Name() + " at an index that is not SearchStrings(S,x)"
@@ -298,6 +303,9 @@ func (tc *tcase) assigned(v ssa.Value, in ssa.Instruction) (effect, bool, string
 		if _, ok := tc.isSOK(c.Call.Args[0]); ok {
 			els := variadicElems(c.Call.Args[1])
 			if len(els) == 1 {
+				if z, isZ := constString(els[0]); isZ && z == "" && tc.growsForInsertion(in) {
+					return effect{}, false, "" // the slot opened for a binary insertion; the insertion is recorded at the store
+				}
 				return effect{kind: effAppend, v: els[0], in: in}, true, ""
 			}
 			return effect{}, false, "append of other than exactly one element to " + S.Name()
@@ -856,6 +864,9 @@ func (tc *tcase) checkPath(fn *ssa.Function, p tpath) (problem string, infeasibl
 		case effReplace:
 			act = append(act, delta{false, s.v}, delta{true, s.k})
 			lastPlus = i
+		case effInsertSorted:
+			act = append(act, delta{true, s.v})
+			lastPlus, lastSort = i, i+1 // placed at its sorted position: no re-sort needed
 		case effSort:
 			lastSort = i
 		case effSliceClear:
@@ -894,7 +905,7 @@ func (tc *tcase) checkPath(fn *ssa.Function, p tpath) (problem string, infeasibl
 			return fmt.Sprintf("this path %s an element of %s that the change of %s[k] does not call for (k %s before, %s after)", what, tc.spec.S.Name(), tc.spec.M.Name(), presentStr(present), presentStr(finalPresent)), false, true
 		}
 	}
-	if lastPlus >= 0 && lastSort < lastPlus {
+	if lastPlus >= 0 && lastSort < lastPlus && !(lastSort == lastPlus+1) {
 		return fmt.Sprintf("an element is added to %s and the slice is not re-sorted afterwards on this path", tc.spec.S.Name()), false, true
 	}
 	return "", false, true
@@ -978,4 +989,52 @@ func (tc *tcase) lookupPrecedes(fn *ssa.Function, k ssa.Value, first ssa.Instruc
 		}
 	})
 	return ok
+}
+
+// upShiftBefore: a copy(S[pos+1:], S[pos:]) with the same pos dominates instruction in (the tail is moved one slot up).
+func (tc *tcase) upShiftBefore(in ssa.Instruction, pos ssa.Value) bool {
+	found := false
+	instrs(in.Parent(), func(j ssa.Instruction) {
+		c, ok := j.(*ssa.Call)
+		if !ok || staticCalleeName(c) != "builtin.copy" || !idominates(c, in) {
+			return
+		}
+		dst, ok1 := c.Call.Args[0].(*ssa.Slice)
+		src, ok2 := c.Call.Args[1].(*ssa.Slice)
+		if !ok1 || !ok2 || dst.High != nil || src.High != nil || dst.Low == nil || src.Low == nil || !tc.isS(dst.X) || !tc.isS(src.X) {
+			return
+		}
+		if strip(src.Low) != strip(pos) {
+			return
+		}
+		if b, isB := dst.Low.(*ssa.BinOp); isB && b.Op == token.ADD && strip(b.X) == strip(pos) {
+			if n, isK := constInt(b.Y); isK && n == 1 {
+				found = true
+			}
+		}
+	})
+	return found
+}
+
+// growsForInsertion: the append of a zero element at instruction in is followed (dominated by it) by the up-shift copy of
+// a binary insertion in the same function.
+func (tc *tcase) growsForInsertion(in ssa.Instruction) bool {
+	found := false
+	instrs(in.Parent(), func(j ssa.Instruction) {
+		c, ok := j.(*ssa.Call)
+		if !ok || staticCalleeName(c) != "builtin.copy" || !idominates(in, c) {
+			return
+		}
+		dst, ok1 := c.Call.Args[0].(*ssa.Slice)
+		src, ok2 := c.Call.Args[1].(*ssa.Slice)
+		if !ok1 || !ok2 || dst.Low == nil || src.Low == nil || !tc.isS(dst.X) || !tc.isS(src.X) {
+			return
+		}
+		if b, isB := dst.Low.(*ssa.BinOp); isB && b.Op == token.ADD && strip(b.X) == strip(src.Low) {
+			if _, isSearch := tc.searchOf(src.Low); isSearch {
+				found = true
+			}
+		}
+	})
+	return found
 }
